@@ -51,6 +51,9 @@ pub fn run(out: &mut Out, seed: u64, tier: &str) {
             (vec!["in.txt"], "in.txt"), (vec!["in"], "in"), (vec!["in.xyz.bak", "-f", "RB"], "in.xyz.bak"),
             (vec!["sub/in.xyz"], "sub/in.xyz"), (vec!["sub/deeper/in.xyz", "-f", "RB"], "sub/deeper/in.xyz"), (vec!["--forcefield=UFF", "./in.xyz"], "./in.xyz"),
             (vec!["in.XYZ"], "in.XYZ"), (vec!["in.Xyz", "-f", "RB"], "in.Xyz"), (vec![".xyz"], ".xyz"), (vec!["sub/.xyz", "-f", "RB"], "sub/.xyz"), (vec!["inxyz"], "inxyz"),
+            // the input is itself the working directory's opt.xyz (continuing from a previous result), or an opt.xyz elsewhere
+            (vec!["opt.xyz"], "opt.xyz"), (vec!["./opt.xyz", "-f", "RB"], "./opt.xyz"), (vec!["opt.xyz", "--forcefield", "UFF"], "opt.xyz"), (vec!["sub/opt.xyz", "-f", "RB"], "sub/opt.xyz"),
+            (vec!["opt.xyz", "-f", "MMFF94"], "opt.xyz"),
             (vec!["missing.xyz"], "in.xyz"), (vec![], "in.xyz"), (vec!["in.xyz", "extra.xyz"], "in.xyz"), (vec!["in.xyz", "-f"], "in.xyz"),
         ];
         for (vi, (args, fname)) in variants.iter().enumerate() {
@@ -60,13 +63,19 @@ pub fn run(out: &mut Out, seed: u64, tier: &str) {
             std::fs::create_dir_all(&dir).unwrap();
             if let Some(parent) = std::path::Path::new(&format!("{}/{}", dir, fname)).parent() { std::fs::create_dir_all(parent).unwrap(); }
             std::fs::write(format!("{}/{}", dir, fname), &text).unwrap();
-            let pre_existing = vi % 2 == 0;
+            let input_is_output = *fname == "opt.xyz" || *fname == "./opt.xyz";
+            let pre_existing = vi % 2 == 0 && !input_is_output;
+            let sentinel: Vec<u8> = if input_is_output { text.clone().into_bytes() } else { sentinel.clone() };
             if pre_existing { std::fs::write(format!("{}/opt.xyz", dir), &sentinel).unwrap(); }
             let argv: Vec<String> = args.iter().map(|s| s.to_string()).collect();
             let r = run_in(&dir, &argv);
             // an output written anywhere but the working directory is a stray file
             let stray = std::path::Path::new(&format!("{}/{}", dir, fname)).parent().map(|p| p.join("opt.xyz"))
-                .map(|p| p != std::path::Path::new(&format!("{}/opt.xyz", dir)) && p.canonicalize().ok() != std::path::Path::new(&format!("{}/opt.xyz", dir)).canonicalize().ok() && p.exists()).unwrap_or(false);
+                .map(|p| p != std::path::Path::new(&format!("{}/opt.xyz", dir)) && p.canonicalize().ok() != std::path::Path::new(&format!("{}/opt.xyz", dir)).canonicalize().ok() && p.exists()
+                    && !(fname.ends_with("/opt.xyz") && std::fs::read(&p).ok().as_deref() == Some(text.as_bytes()))).unwrap_or(false);
+            // an input that is not the output file must be left as it was
+            if !input_is_output && std::fs::read(format!("{}/{}", dir, fname)).ok().as_deref() != Some(text.as_bytes()) {
+                out.oracle_fail("the input file was changed or removed by the run", &format!("optrs {:?} with the input at {}", args, fname)); }
             let _ = std::fs::remove_dir_all(&dir);
             if stray { out.oracle_fail("an opt.xyz was written next to the input file instead of (or besides) the working directory", &format!("optrs {:?} with the input at {}", args, fname)); }
             n_runs += 1;
@@ -91,6 +100,7 @@ pub fn run(out: &mut Out, seed: u64, tier: &str) {
                 n_refused += 1;
                 out.case(&input, "refuse");
                 if wrote { out.oracle_fail("a refused request (non-zero exit) wrote or changed opt.xyz", &replay); }
+                if (pre_existing || input_is_output) && r.opt.is_none() { out.oracle_fail("a refused request (non-zero exit) removed the opt.xyz that was there before", &replay); }
                 continue;
             }
             n_ok += 1;
